@@ -574,10 +574,18 @@ class DimensionValue(Value):
             item = seq[0]
 
             sign, v, d = self.__reUnNumDim.findall(normalize(item.value))[0]
-            if '.' in v:
-                val = float(sign + v)
-            else:
-                val = int(sign + v)
+            try:
+                if '.' in v:
+                    val = float(sign + v)
+                else:
+                    val = int(sign + v)
+            except ValueError:
+                # e.g. more digits than int() converts
+                val = None
+            if val is None or val in (float('inf'), float('-inf')):
+                self.wellformed = False
+                self._log.error('DimensionValue: Number out of range: %s' % item.value)
+                return
 
             dim = None
             if d:
